@@ -221,6 +221,54 @@ def check_fresh(ctx):
                     ctx.ob('C20.fresh-instances', f'default-arg:{fn.name}:{norm(d)[:60]}', False,
                            f'{fn.name}: a stateful object is created once as a default argument', file=f, line=fn.lineno)
     ctx.setcount('module_level_statements', n_mod)
+    # ... and no object built by a LIBRARY constructor is kept in a module global / class attribute / default argument and used at call time: such objects
+    # (sa.MetaData(), a lock-free cache, a defaultdict) are registries that every call writes into.  Immutable factories are listed with their reason.
+    IMMUTABLE_FACTORIES = {'re.compile': 'compiled patterns are immutable', 'compile': 'compiled patterns are immutable', 'frozenset': 'immutable', 'tuple': 'immutable',
+                           'namedtuple': 'a class', 'collections.namedtuple': 'a class', 'field': 'dataclass field descriptor', 'dataclasses.field': 'dataclass field descriptor',
+                           'TypeVar': 'typing', 'typing.TypeVar': 'typing', 'logging.getLogger': 'logger registry of the standard library (not query state)',
+                           'Decimal': 'immutable', 'decimal.Decimal': 'immutable', 'str': 'immutable', 'int': 'immutable', 'float': 'immutable', 'bool': 'immutable',
+                           'os.getenv': 'a string', 'os.environ.get': 'a string', 'hasattr': 'a bool', 'getattr': 'reads an attribute', 'isinstance': 'a bool', 'len': 'an int'}
+    nlib = 0
+    for f in files_of(ctx):
+        tree = ctx.src.tree(f)
+        libs = set()
+        for st in tree.body:
+            if isinstance(st, ast.Import):
+                libs |= {(a.asname or a.name.split('.')[0]) for a in st.names if not a.name.startswith(('mindsdb_sql', 'sly'))}
+            elif isinstance(st, ast.ImportFrom) and st.module and st.level == 0 and not st.module.startswith(('mindsdb_sql', 'sly')):
+                libs |= {(a.asname or a.name) for a in st.names}
+
+        def library_ctor(e):
+            for x in ast.walk(e):
+                if isinstance(x, ast.Call):
+                    d = dotted(x.func) or ''
+                    if d and d.split('.')[0] in libs and d not in IMMUTABLE_FACTORIES and d.split('.')[-1] not in IMMUTABLE_FACTORIES:
+                        return d
+            return None
+        used_in_functions = {x.id for fn in ast.walk(tree) if isinstance(fn, ast.FunctionDef) for x in ast.walk(fn) if isinstance(x, ast.Name)} | \
+                            {x.attr for fn in ast.walk(tree) if isinstance(fn, ast.FunctionDef) for x in ast.walk(fn) if isinstance(x, ast.Attribute)}
+        holders = [(st, 'module-level') for st in tree.body if isinstance(st, (ast.Assign, ast.AnnAssign)) and st.value is not None]
+        holders += [(st, f'class-level:{c.name}') for c in ast.walk(tree) if isinstance(c, ast.ClassDef) for st in c.body
+                    if isinstance(st, (ast.Assign, ast.AnnAssign)) and st.value is not None]
+        for st, where in holders:
+            tg = st.targets[0] if isinstance(st, ast.Assign) else st.target
+            if isinstance(st.value, (ast.ListComp, ast.DictComp, ast.SetComp, ast.GeneratorExp)):
+                continue            # a table computed FROM library data at import time (names of types): plain data of the repository
+            d = library_ctor(st.value)
+            nlib += 1
+            if d is None or not isinstance(tg, ast.Name):
+                continue
+            ctx.ob('C20.fresh-instances', f'library-object:{f}:{tg.id}', tg.id not in used_in_functions,
+                   f'{f}: `{norm(st)[:80]}` keeps an object built by the library call {d}() in a {where.split(":")[0]} name and functions use it at call time: '
+                   f'whatever the calls register in it (tables of a MetaData, cached elements) is shared by all later calls, dialects and threads', file=f, line=st.lineno,
+                   witness='render CREATE TABLE t (a int, b int), then CREATE TABLE t (a int)')
+        for fn in [n for n in ast.walk(tree) if isinstance(n, ast.FunctionDef)]:
+            for dflt in fn.args.defaults + [k for k in fn.args.kw_defaults if k is not None]:
+                d = library_ctor(dflt)
+                if d is not None:
+                    ctx.ob('C20.fresh-instances', f'library-object:default-arg:{fn.name}', False,
+                           f'{fn.name}: an object built by {d}() is created once as a default argument and shared by all calls', file=f, line=fn.lineno)
+    ctx.setcount('module_level_values', nlib)
 
 
 # ---- (3) caller-supplied catalog objects ----------------------------------------------------------------------
